@@ -1,5 +1,6 @@
 #!/bin/sh
 # thorough tier of every property, once, niced (background use through `vp run`); one summary line per property
+# SCALE=<x> scales the thorough budgets (default 1 = the registered thorough command)
 for p in ${PROPS:-C01 C02 C03 C04 C05 C06 C07 C08 C09 C10 C11 C12 C13 C14 C15 C16 C17 C18 C19 C20}; do
-  nice -n 19 ./check.py $p thorough 2>&1 | grep -E "VIOLATION|sub_check=|HARNESS|thorough:|KNOWN" | cut -c1-500
+  nice -n 19 ./check.py $p thorough --scale ${SCALE:-1} 2>&1 | grep -E "VIOLATION|sub_check=|HARNESS|thorough:|KNOWN" | cut -c1-500
 done
